@@ -636,6 +636,176 @@ fn run_nfl(a: &[String]) -> String {
     )
 }
 
+
+// ------------------------------------------------------------------ synthetic accumulators
+/// A synthetic MMR with `n` leafs of which only the chosen ones exist: every block that contains no chosen
+/// leaf has a fresh atom as root, the others are hashed from their children.  Nothing is materialised.
+struct Syn {
+    n: u64,
+    idx: Vec<u64>,
+    leaves: Vec<Digest>,
+}
+fn fresh(a: u64, t: u32) -> Digest {
+    atom(a.wrapping_mul(128).wrapping_add(t as u64).wrapping_add(5000000))
+}
+impl Syn {
+    fn value(&self, a: u64, t: u32) -> Digest {
+        let inside: Vec<usize> = (0..self.idx.len()).filter(|&k| (self.idx[k] >> t) == a).collect();
+        if inside.is_empty() {
+            return fresh(a, t);
+        }
+        if t == 0 {
+            return self.leaves[inside[0]];
+        }
+        hp(self.value(2 * a, t - 1), self.value(2 * a + 1, t - 1))
+    }
+    fn peaks(&self) -> Vec<Digest> {
+        let mut out = vec![];
+        let mut offset = 0u64;
+        for k in (0..64u32).rev() {
+            let p = 1u64 << k;
+            if self.n & p != 0 {
+                out.push(self.value(offset >> k, k));
+                offset += p;
+            }
+        }
+        out
+    }
+    fn path(&self, i: u64) -> Vec<Digest> {
+        let (_, h, _) = locate(self.n, i);
+        (0..h).map(|t| self.value((i >> t) ^ 1, t)).collect()
+    }
+}
+fn show_long(l: &[Digest]) -> String {
+    let s = show_ds(l);
+    if l.len() > 32 {
+        format!("#{}", fnv(&s))
+    } else {
+        s
+    }
+}
+fn show_tracked(idx: &[u64], leaves: &[Digest], mps: &[MmrMembershipProof], peaks: &[Digest], n: u64) -> String {
+    if idx.is_empty() {
+        return "-".to_string();
+    }
+    idx.iter()
+        .zip(leaves.iter())
+        .zip(mps.iter())
+        .map(|((i, l), mp)| {
+            let v = vd(catch_unwind(AssertUnwindSafe(|| mp.verify(*i, *l, peaks, n))));
+            format!("{}:{}:{}", i, show_long(&mp.authentication_path), v)
+        })
+        .collect::<Vec<_>>()
+        .join(";")
+}
+
+fn run_syn(a: &[String]) -> String {
+    let n: u64 = a[0].parse().unwrap();
+    let idx = ulist(&a[1]);
+    let op = a[2].as_str();
+    let leaves: Vec<Digest> = (0..idx.len() as u64).map(|k| atom(2000000 + k)).collect();
+    let syn = Syn { n, idx: idx.clone(), leaves: leaves.clone() };
+    let peaks = syn.peaks();
+    let mps: Vec<MmrMembershipProof> = idx.iter().map(|i| MmrMembershipProof::new(syn.path(*i))).collect();
+    let mut acc = MmrAccumulator::init(peaks.clone(), n);
+    match op {
+        "v" => format!("P={} T={}", show_long(&peaks), show_tracked(&idx, &leaves, &mps, &peaks, n)),
+        "a" => {
+            let leaf = atom(77);
+            // one by one
+            let mut single = mps.clone();
+            let mut flags: Vec<String> = vec![];
+            for (i, mp) in idx.iter().zip(single.iter_mut()) {
+                let f = mp.update_from_append(*i, n, leaf, &peaks);
+                flags.push(if f { "1".to_string() } else { "0".to_string() });
+            }
+            // as a batch
+            let mut batch = mps.clone();
+            let modified: Vec<usize> = {
+                let mut refs: Vec<&mut MmrMembershipProof> = batch.iter_mut().collect();
+                MmrMembershipProof::batch_update_from_append(&mut refs, &idx, n, leaf, &peaks)
+            };
+            let mut sp = peaks.clone();
+            shadow_append_peaks(n, &mut sp, leaf);
+            let new_mp = acc.append(leaf);
+            let np = acc.peaks();
+            let same = single.iter().zip(batch.iter()).all(|(x, y)| x == y);
+            format!(
+                "n={} P={} F={} X={} S={} N={} T={}",
+                acc.num_leafs(),
+                show_long(&np),
+                show_us(&flags),
+                show_us(&modified),
+                if same { "1" } else { "0" },
+                show_long(&new_mp.authentication_path),
+                show_tracked(&idx, &leaves, &single, &np, acc.num_leafs())
+            )
+        }
+        "m" => {
+            // mutate the first chosen leaf, update the others
+            let newleaf = atom(88);
+            let lm = LeafMutation::new(idx[0], newleaf, mps[0].clone());
+            let mut rest: Vec<MmrMembershipProof> = mps.clone();
+            let modified = MmrMembershipProof::batch_update_from_leaf_mutation(&mut rest, &idx, lm.clone());
+            let mut single = mps.clone();
+            let mut flags: Vec<String> = vec![];
+            for (i, mp) in idx.iter().zip(single.iter_mut()) {
+                let f = mp.update_from_leaf_mutation(*i, &lm);
+                flags.push(if f { "1".to_string() } else { "0".to_string() });
+            }
+            acc.mutate_leaf(lm);
+            let mut nl = leaves.clone();
+            nl[0] = newleaf;
+            let syn2 = Syn { n, idx: idx.clone(), leaves: nl.clone() };
+            let expected = syn2.peaks();
+            let np = acc.peaks();
+            let same = single.iter().zip(rest.iter()).all(|(x, y)| x == y);
+            format!(
+                "P={} E={} F={} X={} S={} T={}",
+                show_long(&np),
+                if np == expected { "1" } else { "0" },
+                show_us(&flags),
+                show_us(&modified),
+                if same { "1" } else { "0" },
+                show_tracked(&idx, &nl, &rest, &np, n)
+            )
+        }
+        "b" | "w" | "wx" => {
+            let nl: Vec<Digest> = (0..idx.len() as u64).map(|k| atom(90 + k)).collect();
+            let lms: Vec<LeafMutation> =
+                idx.iter().zip(nl.iter()).zip(mps.iter()).map(|((i, l), mp)| LeafMutation::new(*i, *l, mp.clone())).collect();
+            let syn2 = Syn { n, idx: idx.clone(), leaves: nl.clone() };
+            let expected = syn2.peaks();
+            if op == "b" {
+                let mut tracked = mps.clone();
+                let modified: Vec<usize> = {
+                    let mut refs: Vec<&mut MmrMembershipProof> = tracked.iter_mut().collect();
+                    acc.batch_mutate_leaf_and_update_mps(&mut refs, &idx, lms)
+                };
+                let np = acc.peaks();
+                format!(
+                    "P={} E={} X={} T={}",
+                    show_long(&np),
+                    if np == expected { "1" } else { "0" },
+                    show_us(&modified),
+                    show_tracked(&idx, &nl, &tracked, &np, n)
+                )
+            } else {
+                let mut e2 = expected.clone();
+                let apps = vec![atom(77)];
+                shadow_append_peaks(n, &mut e2, apps[0]);
+                if op == "wx" && !e2.is_empty() {
+                    let l = e2.len();
+                    e2[l - 1] = atom(999999);
+                }
+                let r = catch_unwind(AssertUnwindSafe(|| acc.verify_batch_update(&e2, &apps, lms)));
+                format!("w={}", vd(r))
+            }
+        }
+        _ => "UNKNOWN-OP".to_string(),
+    }
+}
+
 fn run(op: &str, a: &[String]) -> String {
     CTX.with(|c| {
         let mut c = c.borrow_mut();
@@ -651,6 +821,7 @@ fn run(op: &str, a: &[String]) -> String {
         "vfy" => run_vfy(a),
         "succ" => run_succ(false, a),
         "succs" => run_succ(true, a),
+        "syn" => run_syn(a),
         _ => "UNKNOWN-OP".to_string(),
     }
 }
